@@ -1,13 +1,16 @@
 package netsim
 
 import (
+	"bytes"
 	"encoding/hex"
 	"fmt"
+	"io"
 	"os"
 	"path/filepath"
 	"sort"
 	"time"
 
+	"github.com/icon-project/goloop/block"
 	"github.com/icon-project/goloop/common"
 	"github.com/icon-project/goloop/common/codec"
 	"github.com/icon-project/goloop/consensus"
@@ -82,7 +85,27 @@ func (b *byzantine) rewriteFastSync(src *node, m outMsg) outMsg {
 		n := len(s.orc.validators[h])
 		// sibling substitution, if a proposed-but-uncommitted block of that height is known
 		if t.Permille("fs.sibling", 350) {
+			cands := append([][]byte(nil), b.rawBlocks[h]...)
+			// no uncommitted proposal known at this height: fabricate a sibling of the committed block
+			// (same parent, same body, another proposer: decodes and imports like any block, but nobody
+			// ever precommitted it)
 			for _, raw := range b.rawBlocks[h] {
+				hf, bf, err := readBlock(raw)
+				if err != nil || hex.EncodeToString(sha3(codec.BC.MustMarshalToBytes(hf))) != idHex {
+					continue
+				}
+				nh := *hf
+				other := s.nodes[(src.idx+1+t.Choose("fs.sib.prop", len(s.nodes)-1))%len(s.nodes)]
+				nh.Proposer = other.addr.Bytes()
+				if bytes.Equal(nh.Proposer, hf.Proposer) {
+					nh.Proposer = src.addr.Bytes()
+				}
+				if fab, err := io.ReadAll(block.NewBlockReaderFromFormat(&nh, bf)); err == nil && !bytes.Equal(nh.Proposer, hf.Proposer) {
+					cands = append(cands, fab)
+				}
+				break
+			}
+			for _, raw := range cands {
 				hf, _, err := readBlock(raw)
 				if err != nil {
 					continue
@@ -215,6 +238,7 @@ func (s *sim) scheduleLaggard(l *node) {
 				s.part[[2]int{a, b}] = true
 			}
 		}
+		s.laggard = l
 		s.rc.Fault("laggard_boot")
 		s.rc.Event("LAGGARD n%d boots at height 0 while the others are at %d; reachable only through Byzantine validators for %v", l.idx, minH, dur)
 		dir := filepath.Join(s.rc.Scratch, fmt.Sprintf("n%d-i1-wal", l.idx))
